@@ -117,3 +117,29 @@ def r_no_downgrade(ctx):
                               f"ds2host not marked preparing (was {cur}, now {after})")
             else:
                 ctx.ok(rid, loc(fi), f"ds2host[{D}][{H1}] {cur} -> {after}")
+
+
+def r_assignment_outputs(ctx):
+    """C02.R11: an assignment asks the worker to publish *every* output of the task — consumed, requested or neither: completion of the
+    task is inferred from the publication of its last output (key order), so an output trimmed from the publish set can keep the task
+    'running' for ever, and its worker busy."""
+    repo = ctx.repo
+    fi = repo.func(f"{ASSIGN}.build_assignment")
+    ctx.analysed(fi.qual)
+    T = Atom("T")
+    W = worker(Atom("H1"))
+    O0, O1, O2 = ds("O0", T, "0"), ds("O1", T, "1"), ds("O2", T, "2")
+    env = {"state.edge_i": {T: set()}, "state.worker2ds": {W: {}}, "state.host2ds": {Atom("H1"): {}}, "state.ds2host": {},
+           "state.task_o": {T: {O0, O1, O2}}, "state.edge_o": {O0: {Atom("C")}, O1: set()}, "state.outputs": {O1: None}}
+    paths = Interp(repo).explore(fi, env=env, args={"worker": W, "task": T})
+    ctx.evals(len(paths))
+    for p in paths:
+        rv = p.exit[1] if p.exit[0] == "return" else None
+        outs = rv.fields.get("outputs", rv.kwargs.get("outputs")) if isinstance(rv, Obj) else None
+        names = sorted(getattr(o, "name", vkey(o)) for o in outs) if isinstance(outs, (set, list, tuple, frozenset)) else None
+        if names != ["O0", "O1", "O2"]:
+            ctx.violation("C02.R11", fi.qual, loc(fi), "every output of the task is published",
+                          f"task with outputs O0 (consumed), O1 (requested by the user), O2 (neither; last in key order): the assignment publishes {names}; expected all "
+                          f"three — the controller waits for the publication of O2 to consider the task complete")
+        else:
+            ctx.ok("C02.R11", loc(fi), "assignment outputs = all outputs of the task")
